@@ -36,7 +36,7 @@ def c07():
         ("family_branch_is_iterated_family", "family_branch entries are iterated family() inside the mmr", 10, 16),
         ("family_branch_is_maximal", "family_branch stops only when the next parent leaves the mmr", 10, 16),
     ]:
-        obs.append(ob("c07a::" + name, "q", 66, claim, W % q, env={"VH_LIMBITS": q}, tag="_w%d" % q, est=200))
+        obs.append(ob("c07a::" + name, "t" if name == "peaks_decompose_size" else "q", 66, claim, W % q, env={"VH_LIMBITS": q}, tag="_w%d" % q, est=200))
         if t != q:
             obs.append(ob("c07a::" + name, "t", 66, claim, W % t, env={"VH_LIMBITS": t}, tag="_w%d" % t, est=1500))
     HL = {"memcmp": 40, "compress": 66}
@@ -49,8 +49,8 @@ def c07():
                       "merkle_proof for every leaf exists and verifies against the root for that element at that position; no proof for a parent position",
                       "%d leaves with symbolic contents, every leaf" % n,
                       env={"VH_NLEAF": n}, tag="_n%d" % n, est=120 * n, loops=HL))
-        obs.append(ob("c07b::accepted_proofs_consume_their_path", tiers, 8,
-                      "shortened / lengthened paths: whenever a proof with m path hashes verifies, exactly m+1 hashes were computed (no early acceptance, no skipped element) - needs no hash assumption",
+        obs.append(ob("c07b::accepted_proofs_consume_their_path", "t", 8,
+                      "shortened / lengthened paths: whenever a proof with m path hashes verifies, exactly m+1 hashes were computed (no early acceptance, no skipped element) - needs no hash assumption  [thorough-tier ATTEMPT: 2 leaves did not finish in 660 s]",
                       "%d leaves, every leaf, honest proof with an arbitrary hash appended / prepended or an end removed" % n,
                       env={"VH_NLEAF": n}, tag="_n%d" % n, est=150 * n, loops=HL, replay="model"))
     for n, leaf, kind in [(2, 1, 1), (2, 1, 2), (2, 1, 3), (3, 2, 1), (3, 2, 3)]:
@@ -202,14 +202,21 @@ def c05():
                       allow_unsat=["refused (non-zero padding)"] if (n * eb) % 8 == 0 else []))
         if n == 8:
             obs.append(ob("c05::proof_decode_injective", tiers, u, "two accepted encodings of equal proofs are equal byte strings (canonical form)", b + ", two symbolic buffers", env=e, tag=tag, est=240, loops=L, cap_s=900 if "q" in tiers else 3600))
+    for n, tiers, est in [(2, "qt", 120), (4, "t", 1500)]:
+        obs.append(ob("c05a::cuckatoo_verify_matches_definition", tiers, 2 * n + 3,
+                      "CuckatooContext::verify == Ok  <=>  right count, strictly ascending, in range, and the edges form one simple cycle (oracle from the graph definition), for EVERY assignment of endpoints to the nonces",
+                      "proof size %d, edge_bits 10, nonces full width, endpoints arbitrary (siphash replaced by an arbitrary function)" % n,
+                      env={"VH_N": n}, tag="_n%d" % n, est=est, replay="model", mem_est_gb=14 if n > 2 else 4))
     obs.append(ob("c05::pow_variant_selection", "qt", 4, "create_pow_context picks cuckatoo unless a production chain asks for <= 29 edge bits, then the cuckaroo variant of header_version(height), none after HF4",
                   "every chain type, height < 2^32, every edge_bits byte", est=60, replay="model"))
     return {
         "obligations": obs,
-        "stubs": BASE_STUBS + ["variant constructors new_cuck*_ctx -> tagging stubs (selection obligation only)"],
+        "stubs": BASE_STUBS + ["variant constructors new_cuck*_ctx -> tagging stubs (selection obligation only)",
+                               "E5 pow::siphash::siphash24 -> arbitrary function (next value of a symbolic table per call); global::proofsize -> the query's n (cycle-logic obligations)",
+                               "E6-lite croaring::Bitmap -> 64-value bitset (CuckatooContext::new_impl builds an unused Bitmap)"],
         "explanation": "Bounded proof over Proof::{read, write, pack_nonces}, pack_bits, read_number, extract_bits and global::create_pow_context.",
         "bounds": "edge_bits and proof size concrete per query; nonces / bytes symbolic",
-        "outside": "cycle verification against the graph definitions (family A: measured 20 min per variant at n=4, not registered yet), siphash equivalence, solver (find_cycles), lean miner",
+        "outside": "cycle logic of the four cuckaroo* verifiers and proof sizes above 4 (n = 8 did not finish), siphash equivalence, solver (find_cycles), lean miner",
         "assumptions": [],
     }
 
@@ -234,8 +241,8 @@ def c10():
 
 def c12():
     obs = [
-        ob("c12::cut_through_1_2", "qt", 6, "cut_through: remaining = union minus exactly the matched pairs (multiset), slices sorted, no index panic", "1 input + 2 outputs, commitments differ in one symbolic byte", est=120, unwindset={"memcmp.0": 40}),
-        ob("c12::cut_through_2_1", "qt", 6, "same", "2 inputs + 1 output", est=120, unwindset={"memcmp.0": 40}),
+        ob("c12::cut_through_1_2", "qt", 6, "cut_through: remaining = union minus exactly the matched pairs (multiset), slices sorted, no index panic", "1 input + 2 outputs, commitments differ in one symbolic byte", est=420, unwindset={"memcmp.0": 40}, allow_unsat=["two pairs cut"], mem_est_gb=12),
+        ob("c12::cut_through_2_1", "qt", 6, "same", "2 inputs + 1 output", est=420, unwindset={"memcmp.0": 40}, allow_unsat=["two pairs cut"], mem_est_gb=12),
         ob("c12::cut_through_2_2", "t", 6, "same", "2 inputs + 2 outputs", est=700, cap_s=3600, unwindset={"memcmp.0": 40}, mem_est_gb=14),
         ob("c12::cut_through_err_iff_duplicate_2_2", "qt", 6, "Err(CutThrough) iff a duplicate survives", "2 + 2", est=500, cap_s=750, unwindset={"memcmp.0": 40}, mem_est_gb=13),
         ob("c12::cut_through_3_3", "t", 8, "same", "3 inputs + 3 outputs", est=3000, cap_s=5400, unwindset={"memcmp.0": 40}, mem_est_gb=20),
@@ -307,10 +314,12 @@ def c13():
 
 def c14():
     obs = [
-        ob("c14::pool_refuses_low_fee", "qt", 6, "TransactionPool::add_to_pool refuses (LowFeeTransaction) every tx whose shifted fee is below weight*accept_fee_base; weight / shifted_fee / accept_fee formulas",
-           "1-in/2-out/1-kernel tx, fee < 2^40, shift < 16, base < 2^40, plain or height-locked kernel, stem or fluff, empty pools", est=120, loops={"memcmp": 70, "zeroize": 36}),
-        ob("c14::pool_refuses_nrd_unless_enabled_and_hf3", "qt", 6, "add_to_pool refuses NRD kernels while the feature is off or the header version is below 4",
-           "every header version (u16), flag on/off", est=120, loops={"memcmp": 70, "zeroize": 36}),
+        ob("c14::tx_fee_gate_inputs", "qt", 6, "Transaction::{weight, fee, shifted_fee, accept_fee} - the quantities TransactionPool::is_acceptable compares - follow their definitions",
+           "1-in/0-out/1-kernel tx, fee < 2^40, shift < 16, base < 2^40", est=60, loops={"memcmp": 70, "zeroize": 36}),
+        ob("c14::pool_refuses_low_fee", "t", 6, "TransactionPool::add_to_pool refuses (LowFeeTransaction) every tx whose shifted fee is below weight*accept_fee_base; weight / shifted_fee / accept_fee formulas",
+           "[thorough-tier ATTEMPT: did not finish in 37 min / 23 GB] 1-in/0-out/1-kernel tx, fee < 2^40, shift < 16, base < 2^40, plain or height-locked kernel, stem or fluff, empty pools", est=3000, cap_s=3600, loops={"memcmp": 70, "zeroize": 36}),
+        ob("c14::pool_refuses_nrd_unless_enabled_and_hf3", "t", 6, "add_to_pool refuses NRD kernels while the feature is off or the header version is below 4",
+           "[thorough-tier ATTEMPT] every header version (u16), flag on/off", est=3000, cap_s=3600, loops={"memcmp": 70, "zeroize": 36}),
         ob("c14::fee_and_weight_arithmetic", "qt", 6, "body fee = sum, fee_shift = max, shifted fee = sum >> max over fee-carrying kernels; weight_by_iok = i + 21 o + 3 k saturating",
            "3 kernels (plain, coinbase, height-locked) with symbolic fee fields; counts full width", est=60),
     ]
